@@ -778,6 +778,9 @@ def call_external(ex, f, args, kwargs, node):
     key = (getattr(f, '__module__', None), getattr(f, '__qualname__', getattr(f, '__name__', None)))
     if key in ex.stubs:
         return ex.stubs[key](ex, args, kwargs, node)
+    import importlib as _importlib
+    if f is _importlib.import_module and args and all(isinstance(a_, str) for a_ in args) and not kwargs:
+        return _importlib.import_module(*args)          # importing a module by a concrete name: the real thing
     # logging has no effect on results (assumption register): calls on logger objects are no-ops
     _owner = getattr(f, '__self__', None)
     if _owner is not None and type(_owner).__name__ in ('Logger', 'RootLogger', 'SlyLogger', 'LoggerAdapter') and getattr(f, '__name__', '') in (
